@@ -168,6 +168,32 @@ class Obj(object):
             return tuple(np.ravel(np.asarray(res, dtype=object)))
         self.ops = dict(v=lambda x: draw(x, False), s=lambda x: draw(x, True))
 
+    def _build_ppm(self, tag):
+        """PosteriorPredictiveModel over a posterior with two individuals:
+        seeded sampling for individual a ('v'), individual b ('s') and the
+        default individual ('p'), interleaved on one object"""
+        from .c15 import _posterior_dataset
+        B = self.B
+        um = SymMechModel(B, n_params=2, n_outputs=1)
+        pm = chi.PredictiveModel(um, chi.GaussianErrorModel())
+        names = pm.get_parameter_names()
+        ds, cells = _posterior_dataset(B, names, ['ID a', 'ID b'], 2, 2)
+        for key, v in cells.items():
+            if key[0] == names[-1]:
+                B.assume(v > 0)
+        ppm = chi.PosteriorPredictiveModel(pm, ds)
+        self.user = dict(mech=um, em=None)
+        self.obj = ppm
+        self.n = 1
+        times = self._watch(np.array([2.5, 1.0]))
+
+        def draw(ind):
+            B.new_rng()
+            res = ppm.sample(times, n_samples=1, seed=5, individual=ind)
+            return tuple(res['Value']) + tuple(res['Time'])
+        self.ops = dict(v=lambda x: draw('ID a'), s=lambda x: draw('ID b'),
+                        p=lambda x: draw(None))
+
     def _build_ll_red_mm(self, tag, shared=None):
         """likelihood whose user-supplied mechanistic model is a
         ReducedMechanisticModel that already has a fixed parameter"""
@@ -370,11 +396,11 @@ def case_seq(B, cfg):
         s_ = seen.get((oi, 's', which))
         p_ = seen.get((oi, 'p', which))
         if v is not None and s_ is not None and op in ('v', 's') and \
-                kind != 'pm':
+                kind not in ('pm', 'ppm'):
             B.eq('step %d: S1 score = value at the same point (object %d)'
                  % (step, oi), s_[0], v[0])
         if v is not None and p_ is not None and op in ('v', 'p') and \
-                kind not in ('red_pop',):
+                kind not in ('red_pop', 'ppm'):
             tot = p_[0]
             for t_ in p_[1:]:
                 tot = tot + t_
@@ -472,7 +498,7 @@ def case_shared_models(B, cfg):
 
 
 KINDS = ['ll_pk', 'll_pk_fixed', 'post_pk', 'll_sym', 'hier', 'filterpost',
-         'red_em', 'red_pop', 'filter', 'll_red_em', 'pm']
+         'red_em', 'red_pop', 'filter', 'll_red_em', 'pm', 'ppm']
 
 
 def jobs(tier):
@@ -491,7 +517,7 @@ def jobs(tier):
                 out.append(('seq', 'case_seq', dict(
                     kind=kind, seq=[list(s) for s in seq]), facade))
         if kind in ('ll_pk', 'll_sym', 'red_em', 'll_pk_fixed', 'll_red_em',
-                    'pm'):
+                    'pm', 'ppm'):
             sib = list(itertools.product(two_ops, repeat=2))
             sib = [s for s in sib if s[0][0] != s[1][0]]
             if not q:
